@@ -618,7 +618,7 @@ func (r *Run) decodeRune(s StringV, i int) (*Term, int) {
 // ---- slices, indexing ----
 
 func (r *Run) sliceElem(s SliceV, i int) Value {
-	return s.Arr.V.(*ArrayV).E[s.Off+i]
+	return walk(s.Arr.V, s.Base).(*ArrayV).E[s.Off+i]
 }
 
 // idx resolves an index term against a length: panics (target) when out of range is feasible.
@@ -646,7 +646,7 @@ func (th *Thread) indexAddr(fr *frame, in *ssa.IndexAddr) Value {
 	switch a := x.(type) {
 	case SliceV:
 		i := th.idx(it, a.Len, in.Pos(), "index")
-		return Ptr{Obj: a.Arr, Path: []int{a.Off + i}}
+		return a.elemPtr(i)
 	case Ptr: // *array
 		if a.IsNil() {
 			th.targetPanic("nil pointer dereference (index)", in.Pos())
@@ -750,7 +750,9 @@ func (th *Thread) sliceOp(fr *frame, in *ssa.Slice) Value {
 		// slice of array object: need the array object as backing store. If the pointer addresses
 		// a whole object we can share it; otherwise unsupported.
 		if len(arrPtr.Path) != 0 {
-			r.unsupported("slicing an array nested inside another object")
+			// an array that is a field or element of another object (n.children[a:b]): the slice
+			// refers to it in place through the path
+			return SliceV{Arr: arrPtr.Obj, Base: append([]int(nil), arrPtr.Path...), Off: lo, Len: hi - lo, Cap: mx - lo}
 		}
 		return SliceV{Arr: arrPtr.Obj, Off: lo, Len: hi - lo, Cap: mx - lo}
 	}
@@ -758,7 +760,7 @@ func (th *Thread) sliceOp(fr *frame, in *ssa.Slice) Value {
 		// nil slice: only [0:0]
 		return SliceV{}
 	}
-	return SliceV{Arr: sl.Arr, Off: sl.Off + lo, Len: hi - lo, Cap: mx - lo}
+	return SliceV{Arr: sl.Arr, Base: sl.Base, Off: sl.Off + lo, Len: hi - lo, Cap: mx - lo}
 }
 
 // growCap mimics gc's append growth (runtime.growslice + size classes) for small slices.
@@ -799,9 +801,9 @@ func (th *Thread) doAppend(s SliceV, elems []Value, et types.Type, pos token.Pos
 	}
 	if s.Arr != nil && s.Len+n <= s.Cap {
 		for i, e := range elems {
-			th.store(Ptr{Obj: s.Arr, Path: []int{s.Off + s.Len + i}}, e, pos)
+			th.store(s.elemPtr(s.Len+i), e, pos)
 		}
-		return SliceV{Arr: s.Arr, Off: s.Off, Len: s.Len + n, Cap: s.Cap}
+		return SliceV{Arr: s.Arr, Base: s.Base, Off: s.Off, Len: s.Len + n, Cap: s.Cap}
 	}
 	nc := r.growCap(s.Cap, s.Len+n, et)
 	if nc > maxSliceLen*4 {
@@ -811,7 +813,7 @@ func (th *Thread) doAppend(s SliceV, elems []Value, et types.Type, pos token.Pos
 	arr := ns.Arr.V.(*ArrayV)
 	for i := 0; i < s.Len; i++ {
 		if s.Arr.Shared {
-			r.noteAccess(th, Ptr{Obj: s.Arr, Path: []int{s.Off + i}}, false, pos)
+			r.noteAccess(th, s.elemPtr(i), false, pos)
 		}
 		arr.E[i] = r.sliceElem(s, i)
 	}
@@ -825,7 +827,7 @@ func (th *Thread) sliceValues(s SliceV, pos token.Pos) []Value {
 	out := make([]Value, s.Len)
 	for i := 0; i < s.Len; i++ {
 		if s.Arr.Shared {
-			th.R.noteAccess(th, Ptr{Obj: s.Arr, Path: []int{s.Off + i}}, false, pos)
+			th.R.noteAccess(th, s.elemPtr(i), false, pos)
 		}
 		out[i] = th.R.sliceElem(s, i)
 	}
